@@ -201,8 +201,9 @@ def run_sync(case):
 
 def load_findings(ck):
     if FINDINGS.exists():
-        known = {f["id"] for f in ck.findings}
-        ck.findings += [f for f in json.load(open(FINDINGS)) if f["id"] not in known]
+        mine = json.load(open(FINDINGS))      # this property's findings file is authoritative for its ids (status open / fixed)
+        ids = {f["id"] for f in mine}
+        ck.findings = [f for f in ck.findings if f["id"] not in ids] + mine
 
 
 def replay_findings(ck):
